@@ -12,6 +12,14 @@ WALL_CLOCK_FUNCS = {"_pslinux:boot_time"}
 WALL_CLOCK_EXT = {"time.time", "cext.boot_time", "datetime.datetime.now"}
 
 
+def _walk_terms(t):
+    if isinstance(t, tuple) and t:
+        yield t
+        for x in t:
+            if isinstance(x, tuple):
+                yield from _walk_terms(x)
+
+
 def _writes(repo, attr, classes=("Process", "Popen")):
     out = []
     for fi in repo.all_funcs("psutil"):
@@ -138,7 +146,7 @@ def run(ctx):
     ctx.rule("C02.R3", "identity is a function of the process alone: the value "
              "_get_ident() returns (Linux) has no data dependence on a module global "
              "that is re-assigned after import, on a system-wide file (boot time) or "
-             "on a wall-clock call", floor=1)
+             "on a wall-clock call, and it is an injective function of (pid, kernel start time)", floor=2)
     gi = repo.func("psutil", "Process._get_ident")
     from ..core.absint import Interp, pretty
     from ..core.forms import canon
@@ -186,6 +194,41 @@ def run(ctx):
         n_bad += 1
         ctx.fail("C02.R3", f"wall-clock:{e}", gi.file, gi.node.lineno, gi.qual,
                  f"the identity value depends on {e}()")
+    # ... and an INJECTIVE function of (pid, kernel start time): a lossy step
+    # (round / int / floor division) makes distinct processes that reuse a PID
+    # within the lost resolution compare equal
+    from ..core.absint import alternatives
+    from ..core.forms import NotPolynomial, to_rat
+    from ..oracles import linux as OL
+    from .c06 import stat_atoms
+    inj_why = None
+    tup = [a for a in alternatives(ident) if a and a[0] == "tuple" and len(a) == 3]
+    if not tup:
+        inj_why = f"the identity is not a (pid, start) pair: {pretty(ident)[:100]}"
+    else:
+        start = tup[0][2]
+        lossy = [x for x in _walk_terms(start) if x[0] == "call" and x[1] in (
+            "round", "int", "math.floor", "math.ceil", "math.trunc", "divmod")]
+        lossy += [x for x in _walk_terms(start) if x[0] == "bin" and x[1] in ("//", "%", ">>")]
+        atoms = stat_atoms(start)
+        cols = {d["col"] for _, d in atoms if d.get("file") == "pid/stat"}
+        if lossy:
+            inj_why = (f"the start-time component goes through a lossy step "
+                       f"`{pretty(lossy[0])[:60]}`")
+        elif cols != {OL.STAT["starttime"]}:
+            inj_why = f"the start-time component reads stat column(s) {sorted(cols)}"
+        else:
+            try:
+                to_rat(start)
+            except NotPolynomial as e:
+                inj_why = f"the start-time component is not an affine function of starttime ({e})"
+    if inj_why:
+        n_bad += 1
+        ctx.fail("C02.R3", "ident-injective", gi.file, gi.node.lineno, gi.qual,
+                 f"{inj_why}: two different processes that get the same PID within the "
+                 f"lost resolution would compare equal and is_running() would stay True")
+    else:
+        ctx.ok("C02.R3", "ident-injective", sample="(pid, starttime / CLOCK_TICKS)")
     if n_bad == 0:
         ctx.ok("C02.R3", "ident-dependences",
                sample={"identity": pretty(ident)[:200],
